@@ -443,3 +443,149 @@ Proof.
       unfold with_reaped, observe, run_sm. cbn [o_outcome o_timer_armed o_flag]. rewrite Po, Fo, Fl.
       destruct (s_timer _); try (elim Tm; reflexivity); reflexivity.
 Qed.
+
+(** * The main thread's work is linear in the length of the script *)
+
+Definition TodoOk (k : ctl) : Prop := forall todo cur ec, s_pc k = PJoin todo cur ec -> List.length todo <= 3.
+
+Lemma inv_todo c k : Inv c k -> TodoOk k.
+Proof.
+  intros [_ HI] todo cur ec P. rewrite P in HI. destruct HI as (_ & N & _). apply nodup_who_length. exact N.
+Qed.
+
+Lemma preinv_todo c k : PreInv c k -> TodoOk k.
+Proof.
+  unfold PreInv. intros H todo cur ec P. rewrite P in H. destruct H as (_ & _ & N & _).
+  apply nodup_who_length. exact N.
+Qed.
+
+Lemma join_order_len k : List.length (join_order k) <= 3.
+Proof.
+  unfold join_order. cbn [filter wget].
+  destruct (present (s_out k)), (present (s_in k)), (present (s_err k)); cbn; lia.
+Qed.
+
+Lemma leave_wait_steps c s ec : n_steps (snd (leave_wait c s ec)) <= n_steps (snd s) + 5.
+Proof.
+  unfold leave_wait.
+  match goal with |- n_steps (snd (run_joins c ?a ?b None ec)) <= _ =>
+    pose proof (run_joins_steps c b a None ec) as H; pose proof (join_order_len (fst a)) as L end.
+  cbn [fst snd add_steps n_steps] in *. lia.
+Qed.
+
+Lemma advance_steps c s : TodoOk (fst s) -> n_steps (snd (advance c s)) <= n_steps (snd s) + 5.
+Proof.
+  intros T. unfold advance. destruct (s_pc (fst s)) as [|todo cur ec|o|] eqn:P.
+  - destruct (s_proc (fst s)).
+    + pose proof (leave_wait_steps c (set_reaped (fst s), snd s) false) as H. cbn [snd] in H. exact H.
+    + destruct (any_dead (fst s)); [apply leave_wait_steps | lia].
+  - pose proof (run_joins_steps c todo s cur ec) as H. specialize (T todo cur ec P). lia.
+  - lia.
+  - lia.
+Qed.
+
+Lemma apply_ev_steps c s e : n_steps (snd (apply_ev c s e)) <= n_steps (snd s) + 5.
+Proof.
+  unfold apply_ev. destruct (negb (running (fst s))); [lia|].
+  destruct e as [w|w|code|code| |w x|];
+  repeat match goal with
+  | |- context [match ?w with WOut => _ | WIn => _ | WErr => _ end] => is_var w; destruct w
+  | |- context [if is_run ?x then _ else _] => destruct (is_run x)
+  | |- context [match s_proc (fst s) with _ => _ end] => destruct (s_proc (fst s))
+  | |- context [match s_timer (fst s) with _ => _ end] => destruct (s_timer (fst s))
+  | |- context [match s_pc (fst s) with _ => _ end] => destruct (s_pc (fst s))
+  end; cbn [snd add_kill add_read add_intr n_steps]; try lia;
+  match goal with |- n_steps (snd (leave_wait c ?s0 ?ec)) <= _ =>
+    pose proof (leave_wait_steps c s0 ec) as H; cbn [snd add_intr n_steps] in H; exact H end.
+Qed.
+
+Lemma apply_ev_preinv c k n e : Inv c k -> PreInv c (fst (apply_ev c (k, n) e)).
+Proof.
+  intros I. destruct (s_pc k) as [|todo cur ec|o|] eqn:P.
+  - apply (apply_ev_wait c k n e I P).
+  - destruct (apply_ev_join c k n e todo cur ec P) as (P' & F' & Sub').
+    unfold PreInv. rewrite P'.
+    pose proof I as I0. destruct I as [Hin HI]. rewrite P in HI. destruct HI as (F & N & Sub & _).
+    assert (Rin : is_run (s_in k) = false) by (apply (in_not_running c k I0); rewrite P; discriminate).
+    split; [rewrite F'; exact F|]. split; [|split; [exact N|]].
+    + destruct (is_run (s_in (fst (apply_ev c (k, n) e)))) eqn:R; [|reflexivity].
+      specialize (Sub' WIn R). cbn in Sub'. rewrite Rin in Sub'. discriminate.
+    + intros x Hx. apply Sub. apply Sub'. exact Hx.
+  - rewrite apply_ev_over by (unfold running; cbn; rewrite P; reflexivity). cbn [fst].
+    unfold PreInv. rewrite P. exact I.
+  - destruct I as [_ HI]. rewrite P in HI. elim HI.
+Qed.
+
+Lemma step_steps c k n e : Inv c k -> n_steps (snd (step c (k, n) e)) <= n_steps n + 11.
+Proof.
+  intros I. unfold step.
+  pose proof (apply_ev_steps c (k, n) e) as A. cbn [snd] in A.
+  pose proof (advance_steps c (fst (apply_ev c (k, n) e), add_steps 1 (snd (apply_ev c (k, n) e)))) as B.
+  cbn [fst snd add_steps n_steps] in B.
+  specialize (B (preinv_todo c _ (apply_ev_preinv c k n e I))). lia.
+Qed.
+
+Lemma run_events_steps c : forall script k n,
+  Inv c k -> n_steps (snd (run_events c (k, n) script)) <= n_steps n + 11 * List.length script.
+Proof.
+  induction script as [|e r IH]; intros k n I; [cbn; lia|].
+  change (run_events c (k, n) (e :: r)) with (run_events c (step c (k, n) e) r).
+  rewrite (surjective_pairing (step c (k, n) e)).
+  pose proof (step_steps c k n e I) as S1.
+  pose proof (IH _ (snd (step c (k, n) e)) (step_inv c (k, n) e I)) as S2.
+  cbn [List.length]. lia.
+Qed.
+
+Lemma expire_steps c s : TodoOk (fst s) -> n_steps (snd (expire c s)) <= n_steps (snd s) + 4 /\ TodoOk (fst (expire c s)).
+Proof.
+  intros T. unfold expire. destruct (s_pc (fst s)) as [|[|w rest] [[|]|] ec|o|] eqn:P;
+    try (split; [lia | exact T]).
+  - pose proof (run_joins_steps c rest (fst s, add_steps 1 (add_expired (snd s))) None ec) as H.
+    specialize (T _ _ _ P). cbn [List.length fst snd add_steps add_expired n_steps] in *.
+    split; [lia|].
+    pose proof (run_joins_result c rest (fst s, add_steps 1 (add_expired (snd s))) None ec) as J. cbn [fst] in J.
+    remember (fst (run_joins c (fst s, add_steps 1 (add_expired (snd s))) rest None ec)) as r eqn:Er. clear Er.
+    intros todo cur ec' P'. inversion J as [Hall Heq | pre u rest2 Htodo Hpre Hrun Heq].
+    + rewrite <- Heq in P'. cbn in P'. discriminate.
+    + rewrite <- Heq in P'. cbn in P'. inversion P' as [[E1 E2 E3]]. subst todo.
+      rewrite Htodo in T. rewrite app_length in T. cbn [List.length] in *. lia.
+  - split; [cbn; lia|]. intros todo cur ec' P'. cbn in P'. discriminate.
+Qed.
+
+Theorem steps_linear c script :
+  start_raises c = false ->
+  n_steps (snd (run_sm c script)) <= 11 * List.length script + 20.
+Proof.
+  intros S. unfold run_sm.
+  assert (E0 : advance c (init c) = init c).
+  { unfold advance, init. rewrite S. cbn. destruct (c_in c), (c_pty c); reflexivity. }
+  rewrite E0.
+  assert (I0 : Inv c (fst (init c))) by (rewrite <- E0; apply init_inv; exact S).
+  assert (N0 : n_steps (snd (init c)) = 0) by (unfold init; rewrite S; reflexivity).
+  destruct (init c) as [k0 n0] eqn:EI. cbn [fst snd] in I0, N0.
+  pose proof (run_events_steps c script k0 n0 I0) as R1. rewrite N0 in R1.
+  pose proof (run_events_inv c script (k0, n0) I0) as I1.
+  set (s1 := run_events c (k0, n0) script) in *. clearbody s1.
+  unfold drain. destruct (negb (running (fst s1))); [lia|].
+  set (s2 := advance c (drain_eof c (fst s1), snd s1)).
+  assert (T1 : TodoOk (drain_eof c (fst s1))).
+  { intros todo cur ec P. destruct (drain_eof_fields c (fst s1)) as (Epc & _). rewrite Epc in P.
+    apply (inv_todo c _ I1 todo cur ec P). }
+  pose proof (advance_steps c (drain_eof c (fst s1), snd s1) T1) as A2. cbn [snd] in A2. fold s2 in A2.
+  assert (I2 : Inv c (fst s2)).
+  { unfold s2. apply advance_preinv. unfold PreInv.
+    destruct (drain_eof_fields c (fst s1)) as (Epc & Efl & Ein & Etm & Epr & Erp). rewrite Epc.
+    pose proof I1 as [Hin HI]. destruct (s_pc (fst s1)) as [|todo cur ec|o|] eqn:P.
+    - destruct HI as (Pr & D & F & R & T). rewrite Efl, Erp, Etm. auto.
+    - destruct HI as (F & N & Sub & _).
+      assert (Rin : is_run (s_in (fst s1)) = false) by (apply (in_not_running c _ I1); rewrite P; discriminate).
+      rewrite Efl, Ein. repeat split; auto. intros w Hw. apply Sub. apply drain_eof_not_more in Hw. exact Hw.
+    - (* settled: [running] was true, so this cannot be *) 
+      split; [intros H; rewrite Ein in H; destruct HI as (_ & W & _); specialize (W WIn); cbn in W; congruence|].
+      rewrite Epc. destruct HI as (F & W & T). rewrite Efl, Etm. repeat split; auto.
+      intros w. destruct (is_run (wget (drain_eof c (fst s1)) w)) eqn:Rw; [|reflexivity].
+      apply drain_eof_not_more in Rw. rewrite (W w) in Rw. discriminate.
+    - elim HI. }
+  destruct (expire_steps c s2 (inv_todo c _ I2)) as [A3 T3].
+  destruct (expire_steps c (expire c s2) T3) as [A4 _]. lia.
+Qed.
